@@ -2,7 +2,7 @@
 
 Leg M   : TLC enumerates a union of input universes of specs/Team (who defines a variable x which cars list which config
           bases x template trees / archive content x where the data paths are relative to the installation) and checks that the operational transcription of team.load_car /
-          ElasticsearchInstaller.variables / _apply_config / cleanup satisfies the declarative clauses of C13; ten seeded
+          ElasticsearchInstaller.variables / _apply_config / cleanup satisfies the declarative clauses of C13; eleven seeded
           faults of the transcription must each violate them (self-test of the formulas).
 Leg S2C : TLC states (inputs) become REAL team directories (cars/v1/*.ini, <base>/config.ini, <base>/templates/** with
           Jinja templates and binary blobs) and a stub distribution tar.gz; the real team.load_car, ElasticsearchInstaller,
@@ -24,8 +24,8 @@ from ..tlaparse import parse_state, to_json
 
 S, L = teamfs.S, teamfs.L
 
-SELFTEST_QUICK = ["overwrite", "internal_first", "prefix_skip"]
-SELFTEST_ALL = ["first_base_wins", "params_first", "nodedup", "earlier_car_wins", "base_over_car", "internal_first", "overwrite", "ignore_preserve", "keep_data", "prefix_skip"]
+SELFTEST_QUICK = ["overwrite", "internal_first", "prefix_skip", "leak_defaults"]
+SELFTEST_ALL = ["first_base_wins", "params_first", "nodedup", "earlier_car_wins", "base_over_car", "internal_first", "overwrite", "ignore_preserve", "keep_data", "prefix_skip", "leak_defaults"]
 
 
 # ---------------------------------------------------------------------------------------------------
@@ -61,12 +61,14 @@ def inp_from_state(st):
         "tpl": {k: list(v) for k, v in j["tpl"].items()},
         "shipped": [dict(f) for f in j["shipped"]],
         "preserve": bool(j["preserve"]),
+        "nodes": 1 + len(j.get("more", [])),  # how many nodes the model provisions from the composed car
     }
 
 
 # a source proposes a data path that is placed relative to the installation / the node root (universe C of MC_Team): such
 # inputs are few and always executed, also in the sampled quick tier
-_LAYOUT = re.compile(r'data_paths\s*\|->\s*\[\s*l\s*\|->\s*(?:TRUE|FALSE)\s*,\s*v\s*\|->\s*<<\s*"\$(?:ES|NODE)')
+_MULTI = re.compile(r"more\s*\|->\s*<<\s*\[")  # universe N: several nodes provisioned from the one car; always executed too
+_LAYOUT = re.compile(r'data_paths\s*\|->\s*\[[^\]]*"\$(?:ES|NODE)')  # (TLC prints record fields in no fixed order)
 
 
 def read_initial_states(path, keep):
@@ -81,7 +83,7 @@ def read_initial_states(path, keep):
             return
         total += 1
         h = hashlib.sha1(text.encode("utf-8")).hexdigest()
-        if keep(h) or _LAYOUT.search(text):
+        if keep(h) or _LAYOUT.search(text) or _MULTI.search(text):
             res.append((h, text))
 
     with open(path, "r", encoding="utf-8") as f:
@@ -190,8 +192,9 @@ def random_inp(rnd):
 
 
 # ---------------------------------------------------------------------------------------------------
-def run_item(root, adir, iid, inp, seed):
-    mat = {"seed": seed}
+def run_item(root, adir, iid, inp, seed, nodes=1):
+    mat = {"seed": seed, "nodes": nodes}
+    inp = {k: v for k, v in inp.items() if k != "nodes"}
     ci = teamfs.complete(inp, mat)
     out = teamfs.execute(os.path.join(root, "case"), ci, mat, adir)
     return {"id": iid, "inp": ci, "mat": mat, "out": out}
@@ -205,6 +208,7 @@ def _norm(it):
         sorted(inp["params"].items(), key=repr),
         sorted(map(repr, inp["shipped"])),
         inp["preserve"],
+        len(inp["more"]),
     )
 
 
@@ -229,12 +233,17 @@ def _sig(it, clauses):
         "car_params": bool(inp["params"]),
         "preserve": inp["preserve"],
         "data_path_kinds": sorted({_dp_kind(p) for p in it["out"]["dataPaths"]}),
+        "nodes": 1 + len(inp["more"]),
     }
 
 
 def _detail(it):
     inp = it["inp"]
-    return "cars=%s params=%s preserve=%s err=%s paths=%s data_paths=%s left_after_cleanup=%s" % (
+    later = ""
+    if it["out"]["more"]:
+        added = sorted(set(it["out"]["varsAfter"]) - set(it["out"]["vars"]))
+        later = " later_nodes=%s car_keys_added_by_provisioning=%s" % ([(r["err"], r["home"], r["dataPaths"]) for r in it["out"]["more"]], added)
+    return "cars=%s params=%s preserve=%s err=%s paths=%s data_paths=%s left_after_cleanup=%s%s" % (
         [(c["name"], c["bases"]) for c in inp["cars"]],
         sorted(inp["params"]),
         inp["preserve"],
@@ -242,6 +251,7 @@ def _detail(it):
         it["out"]["paths"],
         it["out"]["dataPaths"],
         sorted(p for p, e in it["out"]["after"]["exists"].items() if e),
+        later,
     )
 
 
@@ -297,12 +307,14 @@ def run(ctx, out):
     items = []
     try:
         for n, (h, inp) in enumerate(states):
-            it = run_item(root, adir, "s%d" % n, inp, int(h[8:14], 16))
+            # universe N says how many nodes; every 4th other input is provisioned twice from its car as well
+            nodes = inp["nodes"] if inp["nodes"] > 1 else (2 if int(h[14:16], 16) % 4 == 0 else 1)
+            it = run_item(root, adir, "s%d" % n, inp, int(h[8:14], 16), nodes)
             items.append(it)
         # ---- seeded random teams
         rnd = random.Random(ctx.seed + 13)
         for n in range(300 if quick else 6000):
-            it = run_item(root, adir, "r%d" % n, random_inp(rnd), rnd.randrange(1 << 20))
+            it = run_item(root, adir, "r%d" % n, random_inp(rnd), rnd.randrange(1 << 20), rnd.choice([1, 1, 1, 2, 2, 3]))
             items.append(it)
     finally:
         shutil.rmtree(root, ignore_errors=True)
@@ -332,10 +344,14 @@ def run(ctx, out):
 
     fs = [feats(it["inp"]) for it in items]
     for it, f in zip(items, fs):
+        multi = len(it["inp"]["more"]) > 0 and not f["nobase"]
+        f["multi"] = multi
+        f["multi_default_dp"] = multi and not f["ext"]  # the later node has to get ITS OWN default data path
+    for it, f in zip(items, fs):
         out.add_case(_norm(it), nontrivial=not f["nobase"] and any(bd["tree"] for bd in it["inp"]["bases"].values()))
-    n_err, n_dup, n_app, n_ext, n_pres, n_sib = (sum(1 for f in fs if f[k2]) for k2 in ("nobase", "dup", "app", "ext", "pres", "sib"))
-    out.extra["executions"] = {"total": len(items), "no_config_base": n_err, "config_base_mentioned_twice": n_dup, "file_appended_by_several_sources": n_app, "user_data_paths": n_ext, "data_path_sibling_named_after_es_home_wiped": n_sib, "preserve_install": n_pres}
-    for name, cnt in (("appended files", n_app), ("data path that is a name-prefix sibling of the ES home (cleanup without preserve)", n_sib), ("duplicate base mentions", n_dup), ("external data paths", n_ext), ("preserve", n_pres), ("no-base errors", n_err)):
+    n_err, n_dup, n_app, n_ext, n_pres, n_sib, n_multi, n_mdd = (sum(1 for f in fs if f[k2]) for k2 in ("nobase", "dup", "app", "ext", "pres", "sib", "multi", "multi_default_dp"))
+    out.extra["executions"] = {"total": len(items), "no_config_base": n_err, "config_base_mentioned_twice": n_dup, "file_appended_by_several_sources": n_app, "user_data_paths": n_ext, "data_path_sibling_named_after_es_home_wiped": n_sib, "preserve_install": n_pres, "several_nodes_from_one_car": n_multi, "several_nodes_default_data_paths": n_mdd}
+    for name, cnt in (("appended files", n_app), ("several nodes provisioned from one car", n_multi), ("several nodes from one car that defines no data_paths", n_mdd), ("data path that is a name-prefix sibling of the ES home (cleanup without preserve)", n_sib), ("duplicate base mentions", n_dup), ("external data paths", n_ext), ("preserve", n_pres), ("no-base errors", n_err)):
         if cnt == 0:
             out.vacuous.append("no executed case with " + name)
     mid = items[len(items) // 2]
